@@ -30,7 +30,13 @@ class YowMessagesProtocolLayer(YowProtocolLayer):
         # with content that cannot be presented the message still has to be answered with a receipt
         payload = Message()
         payload.ParseFromString(protoData)
-        return payload.HasField("sender_key_distribution_message") and len(payload.ListFields()) == 1
+        if not payload.HasField("sender_key_distribution_message") or len(payload.ListFields()) != 1:
+            return False
+        # ListFields() does not list content of a kind newer than this schema (unknown fields): such a message is not a key
+        # distribution on its own either. Unknown fields are kept and written back, so they show in the serialised form
+        alone = Message()
+        alone.sender_key_distribution_message.CopyFrom(payload.sender_key_distribution_message)
+        return payload.SerializeToString() == alone.SerializeToString()
 
     ###recieved node handlers handlers
     def recvMessageStanza(self, node):
